@@ -103,18 +103,30 @@ def user_call(ip, fr, c, t, args, st):
                 tv = None
             if tv is not None and tv[0] == "opq":
                 st.store[("H", tv[1])] = ip.fresh_int(st, "h")[1]
+    if c.user_kind == "clone" and args and args[0][0] == "ptr":
+        tv = ip.load(st, *ip.resolve_ptr(st, args[0]))
+        if tv[0] == "opq":
+            # a clone is a new user value; whether it reports the same heap_size as the original is Clone's business (A-clone)
+            nv = ("opq", next(ip.ctr))
+            if getattr(ip, "assume_clone_same_size", False):
+                st.store[("H", nv[1])] = heap_of(ip, st, tv[1])
+            return [(nv, st)]
     if c.user_kind == "size":
         if c.name in ("heap_size", "mem_size") and args and args[0][0] == "ptr":
             tv = ip.load(st, *ip.resolve_ptr(st, args[0]))
             if tv[0] == "opq":
                 h = heap_of(ip, st, tv[1])
                 if c.name == "heap_size":
+                    info["ret"] = h
                     return [(vint(h), st)]
                 ty = c.fn["args"][0].get("s") if c.fn.get("args") else "?"
                 sz = "sz[%s]" % ty
                 st.num.add(ge(Lin.sym(sz), 0))
+                info["ret"] = h + Lin.sym(sz)
                 return [(vint(h + Lin.sym(sz)), st)]
-        return [(ip.fresh_int(st, "usz"), st)]
+        rv = ip.fresh_int(st, "usz")
+        info["ret"] = rv[1]
+        return [(rv, st)]
     if dest_ty in ("usize", "u64"):
         return [(ip.fresh_int(st, "u"), st)]
     if dest_ty == "bool":
@@ -158,6 +170,19 @@ def call_closure(ip, fr, clos, cargs, st):
     else:
         a0 = clos
     return ip.call_body(cb, [a0] + list(cargs), st, fr.chain)
+
+
+def key_identity(ip, st, clos):
+    """identity of the key an eq-closure compares with: the captured key reference"""
+    try:
+        if clos[0] == "ptr":
+            clos = ip.load(st, *ip.resolve_ptr(st, clos))
+        if clos[0] == "clos" and clos[2]:
+            k = clos[2][0]
+            return repr(k)
+    except Exception:
+        pass
+    return None
 
 
 def table_at(ip, st, ptr):
@@ -261,6 +286,9 @@ def _find_like(ip, fr, c, t, args, st, wrap):
     st.num.add(le(size[1], f["G"][1]))
     st.num.add(ge(f["N"][1], 1))
     e = ip.new_entry_obj(st, f.get("#tid"), size)
+    kid = key_identity(ip, st, args[2]) if len(args) > 2 else None
+    if kid is not None:
+        st.store[("F", kid)] = e
     return [(option("Some", wrap(("ptr", e, ()))), st), (option("None"), s_none)]
 
 
@@ -289,19 +317,61 @@ def m_table_remove_entry(ip, fr, c, t, args, st):
         run_eq_closure(ip, fr, args[2], loc[2][2].get("#tid") if loc else None, st)
     if loc is None:
         return [(("unk", next(ip.ctr), "remove_entry"), st)]
+    # whose key is being removed?  (a key living inside the entry at the LRU end = an eviction / remove_lru)
+    lru = False
+    mru = False
+    try:
+        clos = args[2]
+        if clos[0] == "ptr":
+            clos = ip.load(st, *ip.resolve_ptr(st, clos))
+        if clos[0] == "clos" and clos[2] and clos[2][0][0] == "ptr":
+            ko = clos[2][0][1]
+            ev = st.store.get(ko)
+            if ko[0] == "E" and ev is not None and ev[0] == "struct" and ev[2].get("#cur"):
+                cur = ev[2]["#cur"]
+                if cur.get("first"):
+                    lru = cur["dir"] == ip.r.L_LRU
+                    mru = cur["dir"] == ip.r.L_MRU
+    except Exception:
+        pass
+    ip.events.append(("table_remove", {"state": st.fork(), "lru": lru, "mru": mru, "chain": fr.chain, "loc": c.loc, "in": fr.body.path}))
     s_none = st.fork()
     f = dict(loc[2][2])
-    size = ip.fresh_int(st, "s")
-    st.num.add(le(size[1], f["G"][1]))
+    # which entry?  Keys are unique in the table (C04.2), so a removal by the key that a lookup in this very state found, or by the
+    # key stored inside a materialised entry of this table, removes that entry.
+    known = None
+    try:
+        clos = args[2]
+        if clos[0] == "ptr":
+            clos = ip.load(st, *ip.resolve_ptr(st, clos))
+        if clos[0] == "clos" and clos[2]:
+            kv = clos[2][0]
+            if kv[0] == "ptr" and kv[1][0] == "E":
+                known = kv[1]
+            else:
+                known = st.store.get(("F", repr(kv)))
+    except Exception:
+        known = None
+    kent = st.store.get(known) if known is not None else None
+    if kent is not None and kent[0] == "struct" and kent[2].get("#tid") == f.get("#tid") and is_int(kent[2].get(ip.r.E_SIZE)):
+        size = kent[2][ip.r.E_SIZE]
+        k, v = kent[2].get(ip.r.E_KEY), kent[2].get(ip.r.E_VAL)
+        st.num.add(le(size[1], f["G"][1]))
+        fresh_entry = False
+    else:
+        size = ip.fresh_int(st, "s")
+        k, v = ("opq", next(ip.ctr)), ("opq", next(ip.ctr))
+        st.num.add(le(size[1], f["G"][1]))
+        fresh_entry = True
     st.num.add(ge(f["N"][1], 1))
     f["G"] = vint(f["G"][1] - size[1])
     f["N"] = vint(f["N"][1] - 1)
     set_table(ip, st, loc, f)
     stale_entries(ip, st, f.get("#tid"))
-    k, v = ("opq", next(ip.ctr)), ("opq", next(ip.ctr))
     ent = mkstruct(ip.r.entry, {ip.r.E_SIZE: size, ip.r.E_KEY: k, ip.r.E_VAL: v,
                                 "#tid": None, "#cur": None, "#removed_from": f.get("#tid")})
-    ip.assume_entry_inv(st, size, k, v)
+    if fresh_entry:
+        ip.assume_entry_inv(st, size, k, v)
     return [(option("Some", ent), st), (option("None"), s_none)]
 
 
@@ -653,9 +723,14 @@ def m_from_residual(ip, fr, c, t, args, st):
     v = args[0]
     e = payload(v, "Err") or ("unk", next(ip.ctr), "err")
     # From<E> for F: crate-local impl?
-    a = c.fn.get("args", [])
-    F = a[1] if len(a) > 1 else None
-    E = a[2] if len(a) > 2 else None
+    a = [x for x in c.fn.get("args", []) if x.get("k") not in ("region",)]
+    F = E = None
+    try:
+        # generic args of the trait method: [Self = Result<T, F>, R = Result<Infallible, E>]
+        F = [x for x in a[0]["args"] if x.get("k") != "region"][1]
+        E = [x for x in a[1]["args"] if x.get("k") != "region"][1]
+    except Exception:
+        pass
     if F and E and F.get("s") != E.get("s") and F.get("k") == "adt" and F.get("local"):
         for b in ip.f.bodies:
             if b.impl_trait == "std::convert::From" and b.name == "from" and b.impl_self and b.impl_self.get("name") == F["name"]:
